@@ -11,6 +11,8 @@ T = "harness.orch_rel:c06"
 def case_of(params, model):
     c = {k: params[k] for k in ("K", "k", "k2", "maxcor", "maxcor_restart") if k in params}
     c.setdefault("maxcor", params.get("maxcor", 2))
+    if params.get("ls_mode") == "lean":
+        c["ls_failures"] = 1
     return c
 
 
@@ -20,7 +22,10 @@ def main(tier, seed):
             (T, dict(K=3, k=2, ls_mode="unit", maxcor=2, maxcor_restart=1)), (T, dict(K=3, k=2, ls_mode="unit", maxcor=3))]
     if tier != "quick":
         jobs += [(T, dict(K=3, k=1, k2=2, ls_mode="unit")), (T, dict(K=3, k=2, ls_mode="lean")), (T, dict(K=4, k=2, ls_mode="unit", maxcor=3)),
-                 (T, dict(K=4, k=3, ls_mode="unit", maxcor=3, maxcor_restart=1))]
+                 (T, dict(K=4, k=3, ls_mode="unit", maxcor=3, maxcor_restart=1)),
+                 # line search fails, succeeds, fails again (needs four iterations): the second failure must be handled
+                 # the same way in the uninterrupted and in the restarted run
+                 (T, dict(K=4, k=3, ls_mode="lean", maxcor=1))]
         # (a K=4 chain k=1 -> k2=3 exhausts 60000 paths without finishing: outside the bound, chains are decided for K=3)
     exs = driver.explore_many(jobs, time_limit=1500 if tier == "quick" else 10000, timeout_ms=30000, max_paths=60000)
     for ex in exs:
